@@ -502,5 +502,5 @@ func init() {
 
 func init() {
 	addMutant(Mutant{Name: "c13-create-entry-on-empty-result", Property: "C13", File: "ytypes/node.go",
-		Old: "\tif len(matches) == 0 && !matchedEntry && args.modifyRoot {\n\t\tkey, err := insertAndGetKey(", New: "\tif len(matches) == 0 && args.modifyRoot {\n\t\tkey, err := insertAndGetKey(", Expect: "retrieveNodeList:create#1"})
+		Old: "\tif len(matches) == 0 && !matchedEntry && args.modifyRoot {\n\t\tkey, err := insertAndGetKey(", New: "\tif len(matches) == 0 && (!matchedEntry || len(matches) == 0) && args.modifyRoot {\n\t\tkey, err := insertAndGetKey(", Expect: "retrieveNodeList:create#1"})
 }
